@@ -397,6 +397,39 @@ theorem parOf_append_new (h : Heap) (id : Nat) :
 theorem hasId_append (h : Heap) (n : Node) (b : Nat) : hasId (h ++ [n]) b = (hasId h b || n.id == b) := by
   simp [hasId]
 
+/-! ### weights -/
+
+theorem weightOf_map_keep (h : Heap) (f : Node → Node) (hid : ∀ n, (f n).id = n.id)
+    (hw : ∀ n, (f n).weight = n.weight) (a : Nat) : weightOf (h.map f) a = weightOf h a := by
+  unfold weightOf
+  rw [findNode_map h f hid]
+  cases findNode h a with
+  | none => rfl
+  | some n => simp [hw]
+
+theorem weightOf_setParent (h : Heap) (a : Nat) (q : Option Nat) (x : Nat) :
+    weightOf (setParent h a q) x = weightOf h x :=
+  weightOf_map_keep h _ (setParent_id a q) (fun n => by split <;> rfl) x
+
+theorem weightOf_adopt (h : Heap) (sid : Nat) (par : Option Nat) (x : Nat) :
+    weightOf (adopt h sid par) x = weightOf h x :=
+  weightOf_map_keep h _ (adopt_id sid par) (fun n => by split <;> rfl) x
+
+theorem weightOf_closeNode (h : Heap) (a x : Nat) : weightOf (closeNode h a) x = weightOf h x :=
+  weightOf_map_keep h _ (close_id a) (fun n => by split <;> rfl) x
+
+theorem weightOf_setWeight (h : Heap) (a w x : Nat) :
+    weightOf (setWeight h a w) x = if x = a then (weightOf h x).map (fun _ => w) else weightOf h x := by
+  unfold weightOf setWeight
+  rw [findNode_map h _ (setWeight_id a w)]
+  cases hx : findNode h x with
+  | none => simp
+  | some n =>
+    have hid := findNode_id hx
+    by_cases hxa : x = a
+    · simp [hid, hxa]
+    · simp [hid, hxa]
+
 theorem hasId_mem (h : Heap) (a : Nat) : hasId h a = true ↔ a ∈ h.map (·.id) := by
   simp [hasId]
 
